@@ -24,7 +24,7 @@ SimNext ==
      \/ \E c \in Clients, k \in {"op", "unop", "present", "unpresent", "shutup", "unshutup", "kick", "identify"},
            d \in Clients : UserAction(c, k, d) /\ R(<<"ua", c, k, d>>)
      \/ \E c \in Clients, k \in {"lock", "unlock", "clearchat", "subgroups"} : GroupAction(c, k) /\ R(<<"ga", c, k>>)
-     \/ \E c \in Clients, tg \in Groups, ps \in {{}, {"present"}, {"op"}, {"present", "message"}},
+     \/ \E c \in Clients, tg \in Groups, ps \in {{}, {"present"}, {"op"}, {"present", "message"}, {"message", "op"}},
            ex \in BOOLEAN, sub \in BOOLEAN, tu \in {"", "op", "newname"} :
            MakeToken(c, tg, ps, ex, sub, tu) /\ R(<<"mt", c, tg, ToSeq(ps), B(ex), B(sub), tu>>)
 \* (printed for one kind of last step only: TLC evaluates this on every successor it generates)
